@@ -8,10 +8,15 @@ Local Open Scope N_scope.
    The domain is the WHOLE product of the live enumerations: every e < n_elt (Element), t < n_atype (AtomType),
    g < n_geom (AtomGeom) -- 119 x 21 x 18 = 44 982 triples today. *)
 
+(* the three boolean checks of Model/Mol2Text.v, decided by the kernel on the whole regenerated table *)
+Lemma C07_table_acc : types_accb = true. Proof. vm_compute. reflexivity. Qed.
+Lemma C07_table_ok : types_okb = true. Proof. vm_compute. reflexivity. Qed.
+Lemma C07_table_bonds : bonds_okb = true. Proof. vm_compute. reflexivity. Qed.
+
 (* every atom-type token molli can emit is a blank-free word its own reader accepts *)
 Theorem C07_tokens_accepted : forall e t g, e < n_elt -> t < n_atype -> g < n_geom ->
   exists a', set_tok (get_tok (e, t, g)) = Some a' /\ elt_of a' = e /\ in_dom a' = true /\ tok pyws (get_tok (e, t, g)).
-Proof. apply types_acc_sound. vm_compute. reflexivity. Qed.
+Proof. exact (types_acc_sound C07_table_acc). Qed.
 Print Assumptions C07_tokens_accepted.
 
 (* ... and the element survives *)
@@ -25,7 +30,7 @@ Print Assumptions C07_element_preserved.
 (* writing what was read gives the same token again: get (set (get x)) = get x *)
 Theorem C07_type_fixed_point : forall e t g, e < n_elt -> t < n_atype -> g < n_geom ->
   forall a', set_tok (get_tok (e, t, g)) = Some a' -> get_tok a' = get_tok (e, t, g).
-Proof. apply types_ok_sound. vm_compute. reflexivity. Qed.
+Proof. exact (types_ok_sound C07_table_ok). Qed.
 Print Assumptions C07_type_fixed_point.
 
 (* every bond type mol2 can express is written with its mol2 token and read back as itself *)
@@ -37,7 +42,7 @@ Print Assumptions C07_bond_expressible.
 (* every bond type (all of BondType) is written with a token the reader accepts, and is a fixed point *)
 Theorem C07_bond_fixed_point : forall b, b < n_btype ->
   exists b', bset_tok (bget_tok b) = Some b' /\ b' < n_btype /\ bget_tok b' = bget_tok b /\ tok pyws (bget_tok b).
-Proof. apply bonds_ok_sound. vm_compute. reflexivity. Qed.
+Proof. exact (bonds_ok_sound C07_table_bonds). Qed.
 Print Assumptions C07_bond_fixed_point.
 
 (* the standard SYBYL atom types keep their meaning in both directions *)
@@ -58,9 +63,6 @@ Proof. vm_compute. repeat split; reflexivity. Qed.
    Model/Mol2Text.v and compared with the implementation on every run.
    wf_real_mol m: the name is one line and survives str.strip(), every label is blank-free (or empty), bond
    endpoints are atoms of the molecule, atom / bond types are members of the enumerations. *)
-Lemma C07_table_acc : types_accb = true. Proof. vm_compute. reflexivity. Qed.
-Lemma C07_table_ok : types_okb = true. Proof. vm_compute. reflexivity. Qed.
-Lemma C07_table_bonds : bonds_okb = true. Proof. vm_compute. reflexivity. Qed.
 
 (* for EVERY well-formed molecule, of any size, with any coordinates and charges: reading what was written
    succeeds and gives the normal form (empty labels filled in, types as the reader assigns them, the sign of a
@@ -99,7 +101,7 @@ Print Assumptions C07_preserved.
 Theorem C07_text_fixed_point : forall wq m, wf_real_mol m = true ->
   (wq = true -> forallb (fun a : atom RV => negb (neg_zero (a_q a))) (m_atoms m) = true) ->
   write RV wq (norm RV wq m) = write RV wq m.
-Proof. exact (real_text_fixed_point C07_table_ok C07_table_bonds). Qed.
+Proof. exact (real_text_fixed_point C07_table_acc C07_table_ok C07_table_bonds). Qed.
 Print Assumptions C07_text_fixed_point.
 
 Definition negzero_witness : mol RV :=
@@ -124,7 +126,7 @@ Print Assumptions C07_ensemble_count_order.
 
 (* recorded finding: without conformers nothing is written and nothing can be read *)
 Lemma C07_ensemble_refuted_no_conformer :
-  read_ens RV (write_ens RV (rens (u8 "noconf") [((6, 1, 0), u8 "C1")] [] [])) = None.
+  match read_ens RV (write_ens RV (rens (u8 "noconf") [((6, 1, 0), u8 "C1")] [] [])) with None => true | Some _ => false end = true.
 Proof. vm_compute. reflexivity. Qed.
 
 (* why the name must survive str.strip(): the reader strips every line *)
